@@ -251,6 +251,11 @@ func runCLI(bin string, sc *scriptCase, dir string) {
 	c.Stdout = &out
 	c.Stderr = &errb
 	err := c.Run()
+	if _, isExit := err.(*exec.ExitError); err != nil && !isExit {
+		// the binary could not be started at all (not a verdict of the CLI)
+		sc.CLI = "skipped: cannot run the binary: " + err.Error()
+		return
+	}
 	accepted := sc.Res.FullErr == "" && sc.Res.FullPanic == ""
 	if !accepted {
 		if err == nil {
@@ -904,7 +909,7 @@ func main() {
 			}
 			runCLI(*bin, sc, dir)
 			ncli++
-			if sc.CLI != "same" {
+			if sc.CLI != "same" && !strings.HasPrefix(sc.CLI, "skipped:") {
 				cliDiff = append(cliDiff, sc.CLI+"\n"+fullText(sc))
 			}
 		}
